@@ -1370,7 +1370,7 @@ func (n NamespacedName) Clone() NamespacedName {
 
 func (a NamespacedName) Equal(b NamespacedName) bool {
 	return a.Name.Equal(b.Name) && (a.NamespacePrefix == nil) == (b.NamespacePrefix == nil) &&
-		(a.NamespacePrefix == nil || b.NamespacePrefix == nil || a.NamespacePrefix.Equal(b.Name))
+		(a.NamespacePrefix == nil || b.NamespacePrefix == nil || a.NamespacePrefix.Equal(*b.NamespacePrefix))
 }
 
 type SubclassSelector struct {
